@@ -226,6 +226,17 @@ class Enc:
         names = {n for (n, _, _) in t[2]}
         return isinstance(x, list) and len(x) == 2 and isinstance(x[0], str) and t[3].get(x[0], x[0]) in names
 
+    def pair_key(self, t, n):
+        """the key of a key;value pair for field n: the field name, or the header alias of the field
+        (field_name_to_header_name) when header_name_to_field_name maps it back — ArgsKw: key = remap_get h2f k"""
+        h = t[4].get(n, n)
+        if h != n and t[3].get(h, h) == n and self.rng.random() < 0.6:
+            self.tags.add("pair-key-alias")
+            return h
+        if t[3].get(n, n) != n:
+            raise NoEncoding                   # the field name, used as a header, means another field
+        return n
+
     def model(self, t, v, prefix):
         fields = t[2]
         r = self.rng.random()
@@ -241,9 +252,7 @@ class Enc:
         if prefix and r < 0.5 and nondefault:
             if not all(ft[0] in BASIC for (_, ft, _) in nondefault):
                 raise NoEncoding
-            pairs = [[n, btext(ft, v[n])] for (n, ft, _) in nondefault]
-            if any(t[3].get(n, n) != n for (n, _) in pairs):
-                raise NoEncoding
+            pairs = [[self.pair_key(t, n), btext(ft, v[n])] for (n, ft, _) in nondefault]
             self.rng.shuffle(pairs)
             if not rowgen.cell_wf(pairs):
                 raise NoEncoding
@@ -261,9 +270,7 @@ class Enc:
             rest = [(n, ft, d) for (n, ft, d) in fields[i:] if not is_default(d, v[n])]
             if not head or not rest or not all(ft[0] in BASIC for (_, ft, _) in rest):
                 raise NoEncoding
-            if any(t[3].get(n, n) != n for (n, _, _) in rest):
-                raise NoEncoding
-            x = head + [[n, btext(ft, v[n])] for (n, ft, _) in rest]
+            x = head + [[self.pair_key(t, n), btext(ft, v[n])] for (n, ft, _) in rest]
             if not rowgen.cell_wf(x) or any(s == "" for s in head):
                 raise NoEncoding
             if not self.unsafe and self.reads_as_one_pair(t, x):
@@ -520,6 +527,11 @@ def gen_star_group(rng):
     return R, value, layouts, _interleave(rng, spread, extra), kinds, n
 
 
+# the pairing of short and long edge headers AS THE PROPERTY NAMES THEM (condition_X <-> edges.*.condition.X, from <->
+# edges.*.from): written here, not read from the code's table, so that a table that maps a short header to the wrong
+# long form is seen
+FLOW_SHORT_NAMES = {"from_": ["from"], "value": ["condition", "condition_value"], "variable": ["condition_var", "condition_variable"],
+                    "type": ["condition_type"], "name": ["condition_name"]}
 FLOW_STAR_FIELDS = [("from_", "edges.*.from_"), ("value", "edges.*.condition.value"), ("variable", "edges.*.condition.variable"),
                     ("type", "edges.*.condition.type"), ("name", "edges.*.condition.name")]
 
@@ -547,10 +559,10 @@ def gen_flow_star_group(rng, desc, cx):
     for (g, long_), kind in zip(FLOW_STAR_FIELDS, kinds):
         if kind == "absent":
             continue
-        names = [long_] + short_of.get(long_, [])
+        names = [long_] + FLOW_SHORT_NAMES[g]
         if g == "from_":
             names.append("edges.*.from")
-        h = rng.choice(names) if rng.random() < 0.3 else rng.choice(short_of.get(long_, names))
+        h = rng.choice(names) if rng.random() < 0.3 else rng.choice(FLOW_SHORT_NAMES[g])
         star_cols.append((h, _star_cell(rowlib.STR, kind, vals[g][1], vals[g][2])))
         lens.append(1 if kind == "scalar" else vals[g][1])
     spread = []
